@@ -212,9 +212,12 @@ def scenario_in_fresh_process(j):
     import os
     import subprocess
     import sys
-    code = ("import sys, json, logging; sys.path.insert(0, %r); logging.disable(logging.CRITICAL);"
+    # the child judges by the scenario's result only: it exits at once after printing it (threads the library may have left
+    # behind do not turn into a 'timed out'), and a watchdog ends it if the scenario itself hangs or the parent is gone
+    code = ("import sys, os, json, logging, threading; sys.path.insert(0, %r); logging.disable(logging.CRITICAL);"
+            "w = threading.Timer(50, os._exit, (3,)); w.daemon = True; w.start();"
             "from pyvc import extract; extract.ensure_repo_on_path();"
-            "from bounded import C09_api as A; print('RESULT' + json.dumps(A.scenario(*%r)))" % (os.path.dirname(os.path.dirname(os.path.abspath(__file__))), tuple(j)))
+            "from bounded import C09_api as A; print('RESULT' + json.dumps(A.scenario(*%r))); sys.stdout.flush(); os._exit(0)" % (os.path.dirname(os.path.dirname(os.path.abspath(__file__))), tuple(j)))
     try:
         out = subprocess.run([sys.executable, "-B", "-c", code], capture_output=True, text=True, timeout=60, env=dict(os.environ))
         for line in out.stdout.splitlines():
